@@ -26,7 +26,7 @@ import (
 )
 
 func init() {
-	core.Register(&core.Check{ID: "C05", Level: "model_checking", Run: run, Replay: replay})
+	core.Register(&core.Check{ID: "C05", Level: "model_checking", Run: run, Replay: replay, Worker: worker})
 	// one logical clock for the whole process: strictly increasing, no ties
 	var clock int64 = 1000
 	crdt.Now = func() int64 { return atomic.AddInt64(&clock, 1) }
@@ -826,9 +826,15 @@ func search(c *core.Ctx, cfg Config) {
 	probe := newInst(cfg)
 	names := probe.ops
 	probe.Close()
-	spec := &xstate.Spec{Name: cfg.Name, Alphabet: names, Depth: cfg.Depth, Workers: core.NumWorkers(), Deadline: c.Deadline,
+	spec := &xstate.Spec{Name: cfg.Name, Alphabet: names, Depth: cfg.Depth, Deadline: c.Deadline,
 		New: func(w int) xstate.Instance { return newInst(cfg) }}
-	res := xstate.Run(spec)
+	// every instance builds real brokers whose routers, caches and pollers cannot be released:
+	// the expansion runs in worker processes that are replaced after a few dozen requests
+	cj, _ := json.Marshal(cfg)
+	res, err := xstate.RunProcs(spec, xstate.ProcOpts{CheckID: "C05", Tier: c.Tier, Args: []string{"xstate", string(cj)}, Procs: core.NumWorkers(), Recycle: 40})
+	if err != nil {
+		core.HarnessFailure("C05 %s: %v", cfg.Name, err)
+	}
 	c.Add("states", int64(res.States))
 	c.Add("transitions", res.Transitions)
 	c.Add("traces_validated_against_impl", res.Replays)
@@ -847,6 +853,22 @@ func search(c *core.Ctx, cfg Config) {
 	for _, f := range res.Violations {
 		c.Violate(f.Sig, f.What+" | trace: "+strings.Join(f.Path, ", "), map[string]interface{}{"config": cfg, "ops": f.Ops, "trace": f.Path})
 	}
+}
+
+// worker serves expansion requests for one configuration (see xstate.RunProcs).
+func worker(c *core.Ctx, args []string) {
+	if len(args) < 2 || args[0] != "xstate" {
+		return
+	}
+	var cfg Config
+	if err := json.Unmarshal([]byte(args[1]), &cfg); err != nil {
+		core.HarnessFailure("C05 worker: %v", err)
+	}
+	probe := newInst(cfg)
+	names := probe.ops
+	probe.Close()
+	xstate.Serve(&xstate.Spec{Name: cfg.Name, Alphabet: names, Depth: cfg.Depth,
+		New: func(w int) xstate.Instance { return newInst(cfg) }})
 }
 
 func configs(quick bool) []Config {
